@@ -8,6 +8,7 @@ import (
 	"flag"
 	"fmt"
 	"os"
+	"runtime"
 	"sync"
 	"time"
 
@@ -52,6 +53,8 @@ func cmdRT(args []string) {
 		runs = rtGroup(*n, put)
 	case "batch":
 		runs = rtBatch(*n, put)
+	case "ticker":
+		runs = rtTicker(*n, put)
 	}
 	w.Flush()
 	f.Close()
@@ -252,6 +255,50 @@ func rtBatch(n int, put func([]map[string]any)) int {
 		}(i)
 	}
 	wg.Wait()
+	return n
+}
+
+// rtTicker: JitterTickers on the real clock while the processors are kept busy, so that timer callbacks run late now and
+// then. The spacing rule is about the timestamps the ticker itself sends, so it is exact on any clock: consecutive ticks
+// are never less than d - jitter apart (microseconds; d and jitter are logged in microseconds as well).
+func rtTicker(n int, put func([]map[string]any)) int {
+	stop := make(chan struct{})
+	for i := 0; i < 2*runtime.GOMAXPROCS(-1); i++ { // load: callbacks are delayed by scheduling
+		go func() {
+			x := 0
+			for {
+				select {
+				case <-stop:
+					return
+				default:
+					for k := 0; k < 20000; k++ {
+						x += k
+					}
+					runtime.Gosched()
+				}
+			}
+		}()
+	}
+	var wg sync.WaitGroup
+	for i := 0; i < n; i++ {
+		wg.Add(1)
+		go func(i int) {
+			defer wg.Done()
+			start := time.Now()
+			d := time.Duration(2+i%3) * time.Millisecond
+			j := time.Duration(i%2) * 500 * time.Microsecond
+			evs := []map[string]any{{"ev": "reset", "run": i}, {"ev": "new", "d": int64(d / time.Microsecond), "j": int64(j / time.Microsecond), "panic": 0, "t": 0}}
+			tk := xtime.NewJitterTicker(d, j)
+			for k := 0; k < 120; k++ {
+				ts := <-tk.C
+				evs = append(evs, map[string]any{"ev": "tick", "ts": int64(ts.Sub(start) / time.Microsecond), "t": int64(time.Since(start) / time.Microsecond)})
+			}
+			tk.Stop()
+			put(evs)
+		}(i)
+	}
+	wg.Wait()
+	close(stop)
 	return n
 }
 
